@@ -117,3 +117,47 @@ PROPS["C05"] = dict(
     assumptions=[MODEL_ASSUMPTION, CHK_ASSUMPTION,
                  "the builder route only covers positions without castling rights (the rights type is private)"],
 )
+
+PROPS["C06"] = dict(
+    jobs=lambda ctx: core_jobs("C06", ctx),
+    replay=core_replay("C06"),
+    rule=("each evaluation = one byte string given to parse_fen (or one builder op sequence given to build()): it must "
+          "not panic/abort, Display of an error must not panic, and an accepted board, read back through the public API, "
+          "must have one king per side, <=16 men per side, side not to move not attacked (model attack test), rights "
+          "only with K+R at home, e.p. marker only on an empty square behind an enemy pawn on its double-step rank; "
+          "inputs = canonical FENs of positions reached by legal play (must be ACCEPTED when the root is the start "
+          "position or a corpus position), grammar-aware mutations of them, semantic near-misses that break exactly one "
+          "acceptance condition, e.p.-field text variants, uniformly random bytes / alphabet strings of length 0-120, "
+          "fixed edge inputs, random builder sequences; distinct_nontrivial = distinct inputs (byte strings / op lists)"),
+    floor=dict(any={"evaluations": 200000, "accepted": 5000, "rejected": 100000, "builder-accepted": 100,
+                    "near-miss:right-without-h1-rook:unplayable-rejected": 20,
+                    "near-miss:opponent-in-check-by-knight:unplayable-rejected": 100,
+                    "near-miss:ep-target-occupied:unplayable-rejected": 100,
+                    "near-miss:seventeen-men:unplayable-rejected": 100,
+                    "err:TrailingBytes": 10, "err:FileOutOfBounds": 10, "err:MissingWhitespace": 10}),
+    watchdog=dict(quick=900, thorough=7200),
+    assumptions=[MODEL_ASSUMPTION, CHK_ASSUMPTION,
+                 "'all byte strings' is sampled; a rejection is an alarm only for canonical FENs of positions reached by "
+                 "legal play from the start position or a corpus position (clock fields <= 9999)"],
+)
+
+PROPS["C10"] = dict(
+    jobs=lambda ctx: core_jobs("C10", ctx),
+    replay=core_replay("C10"),
+    rule=("each evaluation = one history of iterator operations (next, len, is_empty, size_hint, count, set_mask, "
+          "remove, remove_move, clone-and-continue-both, drain) executed on Board::legals() / legals_masked(M0) of a "
+          "reached position in lock-step with a set model (remaining moves R, mask M): sizes must equal |R n M|, next() "
+          "must yield an unyielded, unremoved legal move inside M iff one exists, and every history ends by widening "
+          "the mask to the whole universe and draining, which must yield every remaining move exactly once; families: "
+          "the engine's staged pattern with every legal move as 'previous best', the capture-extension pattern, plain "
+          "iteration with size checks at every step, seeded random op lists (<=40 ops + a closing partition by files / "
+          "ranks / complement pair), 64-single-square partitions; distinct_nontrivial = distinct (position identity, "
+          "initial mask, op list) triples"),
+    floor=dict(any={"evaluations": 100000, "op:set_mask": 100000, "op:remove": 10000, "op:remove_move": 50000,
+                    "op:clone": 10000, "position-with-promotion-entries": 1000, "position-with-ep-entry": 200,
+                    "histories:engine-staged-pattern": 20000, "histories:partition-64-squares": 1000}),
+    watchdog=dict(quick=900, thorough=7200),
+    assumptions=[MODEL_ASSUMPTION, CHK_ASSUMPTION,
+                 "remove_move's boolean result and the order of yielded moves are not judged; on a legals_masked(M0) "
+                 "iterator only sub-masks of M0 are issued"],
+)
